@@ -209,14 +209,28 @@ impl<K, V> DoubleEndedIterator for TakingIterator<K, V> {
 /// [LruCache::drain].
 pub struct Drain<'a, K, V, S> {
     iterator: TakingIterator<K, V>,
-    cache: &'a mut LruCache<K, V, S>
+
+    // Keeps the cache mutably borrowed for as long as the drain lives.
+    _cache: &'a mut LruCache<K, V, S>
 }
 
 impl<'a, K, V, S> Drain<'a, K, V, S> {
     pub(crate) fn new(cache: &'a mut LruCache<K, V, S>) -> Drain<'a, K, V, S> {
+        let iterator = TakingIterator::new(cache);
+
+        // Set the cache as empty right away, so it remains valid even if the
+        // drain is leaked. The entries stay in the table's memory, which is
+        // not touched while the cache is borrowed by the drain.
+
+        cache.seal.get_mut().next = cache.seal;
+        cache.seal.get_mut().prev = cache.seal;
+
+        cache.current_size = 0;
+        cache.table.clear_no_drop();
+
         Drain {
-            iterator: TakingIterator::new(cache),
-            cache
+            iterator,
+            _cache: cache
         }
     }
 }
@@ -237,17 +251,10 @@ impl<'a, K, V, S> DoubleEndedIterator for Drain<'a, K, V, S> {
 
 impl<'a, K, V, S> Drop for Drain<'a, K, V, S> {
     fn drop(&mut self) {
-        // Drop all allocated memory of the remaining elements.
+        // Drop all allocated memory of the remaining elements. The cache has
+        // already been set as empty when the drain was created.
 
         for _ in self.by_ref() { }
-
-        // Set the cache as empty.
-
-        self.cache.seal.get_mut().next = self.cache.seal;
-        self.cache.seal.get_mut().prev = self.cache.seal;
-
-        self.cache.current_size = 0;
-        self.cache.table.clear_no_drop();
     }
 }
 
